@@ -19,6 +19,7 @@ from fractions import Fraction
 
 import numpy as np
 
+from ..exact import Pure, case_rng, describe, present_nd
 from toqito.matrix_props import is_block_positive, sk_operator_norm
 from toqito.state_ops import schmidt_decomposition
 from toqito.state_props import (concurrence, entanglement_of_formation, is_product, l1_norm_coherence, log_negativity,
@@ -34,7 +35,10 @@ RULE = ("pure states: every pair of local dimensions in {2,3,4}^2 x every Schmid
         "Schmidt coefficient >= 1e-7 relative).  S(k) operator norm / block positivity: a*I + b*|psi><psi| (closed form a + b*sum of k largest "
         "s_i^2), rank-one operators, projectors containing a rank-k vector, random PSD operators against explicit Schmidt-rank-<=k vectors "
         "(2x2, 2x3, 3x2 with every dim form; three 3x3 cases with list dims in the quick tier; 3x3 and 2x4 in full in the thorough tier).  non-trivial = Schmidt rank >= 2 or unequal local dimensions (pure), rank >= 2 (mixed), "
-        ">= 2 parties with a non-identity local rotation; distinct = hash of the exact case description")
+        ">= 2 parties with a non-identity local rotation; distinct = hash of the exact case description. "
+        "Presentation: every ndarray argument of every toqito call (state vectors, column vectors, density matrices / operators, dim arrays) is a re-presentation "
+        "of the same values determined by the case (C / Fortran / strided / permuted-stride layout; zero imaginary part also as float64, integer values also as "
+        "int64; dim arrays keep their integer dtype), and after every call all arguments are compared with a deep snapshot")
 ASSUMPTIONS = [
     "rounding an exact vector/matrix over Q[i] to float64 moves every entry by <= 2^-53 relative; LAPACK svd / eigvals / nuclear norm are accurate to 1e-9*scale on these inputs (sizes <= 16)",
     "concurrence and the two-qubit mixed entanglement of formation take square roots of eigenvalues that can be exactly 0 (rank-deficient states): rounding 1e-16 becomes 1e-8, so they are compared with 1e-6 (closed form) and 1e-5 (invariance)",
@@ -237,13 +241,33 @@ def incoherent_unitary(rng, d):
 
 # ------------------------------------------------------------------------------------------------ helpers
 
+# presentation context of the case being checked: set by `run_case`, used by every toqito call (they all go through `_call`)
+_PRES = {"rng": None, "fail": None}
+
+
+def _present_arg(rng, x):
+    if isinstance(x, np.ndarray):
+        return present_nd(rng, x, allow_dtype=x.dtype.kind not in "iub")     # integer (dim) arrays keep their dtype
+    return x
+
+
 def _call(fn, *a, **k):
+    rng = _PRES["rng"]
+    guard = None
+    if rng is not None:
+        a = tuple(_present_arg(rng, x) for x in a)
+        guard = Pure(*a, **k)
     try:
         with warnings.catch_warnings(), contextlib.redirect_stdout(io.StringIO()):
             warnings.simplefilter("ignore")
-            return ("ok", fn(*a, **k))
+            out = ("ok", fn(*a, **k))
     except Exception as e:  # noqa: BLE001
-        return ("raise", f"{type(e).__name__}: {str(e)[:200]}")
+        out = ("raise", f"{type(e).__name__}: {str(e)[:200]}")
+    if guard is not None:
+        why = guard.modified()
+        if why:
+            _PRES["fail"](getattr(fn, "__name__", str(fn)), why, describe(list(a)))
+    return out
 
 
 def H2(p):
@@ -300,7 +324,7 @@ class Tally:
 
 # ------------------------------------------------------------------------------------------------ pure states
 
-def make_pure_case(rng, dA, dB, r, irrational=False):
+def make_pure_case(rng, dA, dB, r, irrational=False, real=False):
     m = min(dA, dB)
     if irrational:
         vals = list(PVEC[r][int(rng.integers(len(PVEC[r])))])
@@ -311,8 +335,8 @@ def make_pure_case(rng, dA, dB, r, irrational=False):
     s = ["0"] * m
     for pos, v in zip(slots, vals):
         s[pos] = v
-    U = exact_cayley(rng, dA)
-    V = exact_cayley(rng, dB)
+    U = exact_cayley(rng, dA, cplx=not real)      # real: real orthogonal rotations, the state has real amplitudes (float64 presentations occur)
+    V = exact_cayley(rng, dB, cplx=not real)
     return {"kind": "pure", "dA": dA, "dB": dB, "s": s, "irrational": irrational, "U": xm_json(U), "V": xm_json(V)}
 
 
@@ -700,18 +724,19 @@ def check_additive(ctx, case):
 
 # ------------------------------------------------------------------------------------------------ product test
 
-def _gint(rng, shape, lim=4):
+def _gint(rng, shape, lim=4, real=False):
     while True:
-        a = rng.integers(-lim, lim + 1, size=shape) + 1j * rng.integers(-lim, lim + 1, size=shape)
+        a = rng.integers(-lim, lim + 1, size=shape) + (0j if real else 1j * rng.integers(-lim, lim + 1, size=shape))
         if np.any(a):
             return a.astype(complex)
 
 
-def make_product_case(rng, dims, operator, entangle, shift):
-    """product of Gaussian-integer factors; entangle = None or a pair of positions (i<j) carrying a second product term scaled by 2^-shift"""
+def make_product_case(rng, dims, operator, entangle, shift, real=False):
+    """product of Gaussian-integer factors; entangle = None or a pair of positions (i<j) carrying a second product term scaled by 2^-shift;
+    real: integer factors (the product is then also handed over as float64 / int64 array)"""
     shp = (lambda d: (d, d)) if operator else (lambda d: (d,))
-    f1 = [_gint(rng, shp(d)) for d in dims]
-    f2 = [_gint(rng, shp(d)) for d in dims]
+    f1 = [_gint(rng, shp(d), real=real) for d in dims]
+    f2 = [_gint(rng, shp(d), real=real) for d in dims]
     return {"kind": "product", "dims": list(dims), "operator": operator, "entangle": entangle, "shift": shift,
             "f1": [split(f) for f in f1], "f2": [split(f) for f in f2]}
 
@@ -980,6 +1005,19 @@ def check_sk(ctx, case):
 CHECKS = {"pure": check_pure, "mixed": check_mixed, "additive": check_additive, "product": check_product, "oprank": check_oprank, "sk": check_sk}
 
 
+def run_case(ctx, case):
+    """one case with its own presentation stream (a function of the case description alone, so a replay sees the same presentations)"""
+    def fail(fn, why, pres):
+        ctx.violation(f"{fn}: caller's arguments were modified",
+                      {"check": case["kind"], "case": case, "function": fn, "modified": why, "presentation": pres, "theorem": "(purity of the library functions)"})
+
+    _PRES["rng"], _PRES["fail"] = case_rng("c14", case), fail
+    try:
+        CHECKS[case["kind"]](ctx, case)
+    finally:
+        _PRES["rng"] = _PRES["fail"] = None
+
+
 def corpus_cases():
     """past failures first"""
     out = []
@@ -1047,6 +1085,16 @@ def _round(rng, thorough):
             c = make_sk_case(rng, 3, 3, k, variant)
             c["list_only"] = True
             tasks.append(c)
+    # real-valued inputs (drawn last, the stream above is as before): real amplitudes / integer products, so that the presentations
+    # float64 and int64 occur next to complex128
+    for dA, dB in [(2, 3), (3, 2), (3, 3)] + ([(2, 2), (4, 3)] if thorough else []):
+        tasks.append(make_pure_case(rng, dA, dB, int(rng.integers(1, min(dA, dB) + 1)), real=True))
+    for dims in [(2, 3), (3, 2), (2, 3, 2)]:
+        for opr in (False, True):
+            n = len(dims)
+            tasks.append(make_product_case(rng, dims, opr, None, 0, real=True))
+            i, j = sorted(int(t) for t in rng.choice(n, size=2, replace=False))
+            tasks.append(make_product_case(rng, dims, opr, (i, j), int(rng.integers(0, 3)), real=True))
     return tasks
 
 
@@ -1056,7 +1104,7 @@ def run(ctx, model_ok=True):
         return
     tasks = generate(ctx)
     for case in tasks:
-        CHECKS[case["kind"]](ctx, case)
+        run_case(ctx, case)
     ctx.extra["partial_clauses"] = [
         "S(k) operator norm / block positivity: one-sided certification (upper bound against explicit Schmidt-rank-<=k vectors; two-sided only on operators with a closed form)",
         "trace norm of the partial transpose: proved as the trace of the positive square root (C14.negativity_planted, C14.traceNorm_pT_pure); the identification with numpy's nuclear norm (sum of singular values) is the standard fact ||X||_1 = tr sqrt(X^H X)",
@@ -1070,4 +1118,4 @@ def replay(ctx, rec):
         return
     if case.get("entangle") is not None:
         case["entangle"] = tuple(case["entangle"])
-    CHECKS[case["kind"]](ctx, case)
+    run_case(ctx, case)
